@@ -245,12 +245,83 @@ def r_key(prog, R):
     r = R.rule("R-C08-KEY", "key = opcode, RD, CD, per question type/class/name; map is case-insensitive; same key function for insert and fetch", floor=9, analysis="A-TAB")
     f = prog.func("ares_qcache_calc_key")
     callees = [c.get("callee") for _, _, c in f.calls()]
-    for need, what in (("ares_dns_record_get_opcode", "opcode"), ("ares_dns_rec_type_tostr", "question type"), ("ares_dns_class_tostr", "question class"),
-                       ("ares_dns_record_query_get", "question"), ("ares_dns_record_query_cnt", "question count")):
+    for need, what in (("ares_dns_record_query_get", "question"), ("ares_dns_record_query_cnt", "question count")):
         if need in callees:
             r.ok("key-has:%s" % what, f.loc(f.ln))
         else:
             r.viol("key-has:%s" % what, f.name, f.loc(f.ln), "cache key no longer includes the %s" % what)
+    # opcode, question type and question class reach the key buffer, and reach it injectively: either as a number or through a
+    # name function that gives every value its own string
+    qg = f.calls_to("ares_dns_record_query_get")
+    tvar = cvar = None
+    if qg:
+        for k2, nm in ((3, "t"), (4, "c")):
+            a = strip(call_arg(qg[0][2], k2))
+            if a is not None and a.get("k") == "un" and a["op"] == "&" and is_var(strip(a["e"])):
+                if nm == "t":
+                    tvar = strip(a["e"])["n"]
+                else:
+                    cvar = strip(a["e"])["n"]
+
+    def source(e):
+        """which key component an appended expression carries: 'opcode' / 'type' / 'class' / None, and through which name function"""
+        via = None
+        comp = None
+        for n in walk(e):
+            if n.get("k") == "call":
+                cn = n
+                if cn.get("ref"):
+                    x = f.call_by_id(cn["id"])
+                    cn = x[2] if x else cn
+                cal = cn.get("callee") or ""
+                if cal.endswith("_tostr"):
+                    via = cal
+                if cal == "ares_dns_record_get_opcode":
+                    comp = "opcode"
+                for a in cn.get("args", []):
+                    s2 = source(a)
+                    if s2[0]:
+                        comp = comp or s2[0]
+                        via = via or s2[1]
+            if n.get("k") == "var":
+                if n["n"] == tvar:
+                    comp = comp or "question type"
+                if n["n"] == cvar:
+                    comp = comp or "question class"
+        return comp, via
+    seen = {}
+    for b, i, c in f.calls():
+        if not (c.get("callee") or "").startswith("ares_buf_append"):
+            continue
+        comp, via = source(call_arg(c, 1))
+        if comp:
+            seen[comp] = (via, c)
+    for what in ("opcode", "question type", "question class"):
+        if what not in seen:
+            r.viol("key-has:%s" % what, f.name, f.loc(f.ln), "cache key no longer includes the %s" % what)
+            continue
+        via, c = seen[what]
+        if via is None:
+            r.ok("key-has:%s (numeric)" % what, f.loc(c["ln"]))
+            continue
+        g = (prog.by_name.get(via) or [None])[0]
+        shared = None
+        if g is not None:
+            # a return of a string constant that is not under a case label (the "UNKNOWN" fall-back) is shared by every value without a case
+            case_blocks = set()
+            for bb in g.blocks.values():
+                if bb.term and bb.term.get("cls") == "SwitchStmt":
+                    for succ, vals in g.switch_cases(bb):
+                        if isinstance(vals, list):
+                            case_blocks.add(succ)
+            for bb, ii, el in g.returns():
+                e = strip(el.get("e"))
+                if e is not None and e.get("k") == "str" and bb.id not in case_blocks:
+                    shared = e.get("s")
+        if shared is not None:
+            r.viol("key-has:%s" % what, f.name, f.loc(c["ln"]), "the %s enters the cache key through %s(), which renders every value it has no name for as \"%s\": two requests that differ only in such a %s share one cache entry and the second is answered with the first one's answer" % (what, via, shared, what))
+        else:
+            r.ok("key-has:%s (via %s, injective)" % (what, via), f.loc(c["ln"]))
     mf = MustFacts(f)
     flagparts = {}
     for b, i, c in f.calls_to("ares_buf_append_str"):
